@@ -109,6 +109,10 @@ func main() {
 				ret2var(fd, pk.TypesInfo)
 			case "predicate":
 				extra = append(extra, predicate(fd, pk)...)
+			case "if2continue":
+				if2continue(fd.Body)
+			case "libeq":
+				libeq(fd, pk.TypesInfo)
 			case "rename":
 				rename(fd, pk.TypesInfo, pk.Types)
 			case "range2index":
@@ -762,11 +766,14 @@ func derefNamed(t types.Type) (*types.Named, bool) {
 // dropUnusedImports removes the import specs no selector of the (rewritten) file refers to any more.
 func dropUnusedImports(f *ast.File, info *types.Info) {
 	used := map[string]bool{}
+	usedNames := map[string]bool{}
 	ast.Inspect(f, func(n ast.Node) bool {
 		if se, ok := n.(*ast.SelectorExpr); ok {
 			if id, ok := se.X.(*ast.Ident); ok {
 				if pn, ok := info.Uses[id].(*types.PkgName); ok {
 					used[pn.Imported().Path()] = true
+				} else if info.Uses[id] == nil && info.Defs[id] == nil {
+					usedNames[id.Name] = true // an identifier this tool made
 				}
 			}
 		}
@@ -781,7 +788,14 @@ func dropUnusedImports(f *ast.File, info *types.Info) {
 		for _, sp := range gd.Specs {
 			is := sp.(*ast.ImportSpec)
 			path := strings.Trim(is.Path.Value, "\"")
-			if used[path] || (is.Name != nil && (is.Name.Name == "_" || is.Name.Name == ".")) {
+			base := path
+			if k := strings.LastIndex(base, "/"); k >= 0 {
+				base = base[k+1:]
+			}
+			if is.Name != nil {
+				base = is.Name.Name
+			}
+			if used[path] || usedNames[base] || (is.Name != nil && (is.Name.Name == "_" || is.Name.Name == ".")) {
 				keep = append(keep, sp)
 			}
 		}
@@ -932,5 +946,133 @@ func range2index(body *ast.BlockStmt, info *types.Info) {
 			nSites++
 		}
 		*list = out
+	})
+}
+
+// if2continue: a loop body that ends in `if c {A}` (no else)  ->  `if !c { continue }; A`
+func if2continue(body *ast.BlockStmt) {
+	ast.Inspect(body, func(n ast.Node) bool {
+		var lb *ast.BlockStmt
+		switch x := n.(type) {
+		case *ast.ForStmt:
+			lb = x.Body
+		case *ast.RangeStmt:
+			lb = x.Body
+		}
+		for lb != nil && len(lb.List) > 0 {
+			is, ok := lb.List[len(lb.List)-1].(*ast.IfStmt)
+			if !ok || is.Else != nil || is.Init != nil || len(is.Body.List) == 0 {
+				break
+			}
+			// names declared in A must not clash with the loop body's own
+			declared := map[string]bool{}
+			for _, st := range lb.List[:len(lb.List)-1] {
+				declaredNames(st, declared)
+			}
+			inner := map[string]bool{}
+			for _, st := range is.Body.List {
+				declaredNames(st, inner)
+			}
+			clash := false
+			for k := range inner {
+				if declared[k] {
+					clash = true
+				}
+			}
+			if clash {
+				break
+			}
+			guard := &ast.IfStmt{Cond: not(is.Cond), Body: &ast.BlockStmt{List: []ast.Stmt{&ast.BranchStmt{Tok: token.CONTINUE}}}}
+			lb.List = append(append(lb.List[:len(lb.List)-1:len(lb.List)-1], guard), is.Body.List...)
+			nSites++
+		}
+		return true
+	})
+}
+
+// libeq: strings.Contains(a, b) -> strings.Index(a, b) >= 0 ; strings.Index(a, b) ==/!= -1, > -1, >= 0, < 0 -> [!]strings.Contains(a, b)
+func libeq(fd *ast.FuncDecl, info *types.Info) {
+	isStringsCall := func(e ast.Expr, name string) (*ast.CallExpr, bool) {
+		call, ok := e.(*ast.CallExpr)
+		if !ok {
+			return nil, false
+		}
+		se, ok := call.Fun.(*ast.SelectorExpr)
+		if !ok || se.Sel.Name != name {
+			return nil, false
+		}
+		id, ok := se.X.(*ast.Ident)
+		if !ok {
+			return nil, false
+		}
+		pn, ok := info.Uses[id].(*types.PkgName)
+		return call, ok && pn.Imported().Path() == "strings"
+	}
+	intLit := func(e ast.Expr) (int, bool) {
+		neg := false
+		if u, ok := e.(*ast.UnaryExpr); ok && u.Op == token.SUB {
+			neg, e = true, u.X
+		}
+		l, ok := e.(*ast.BasicLit)
+		if !ok || l.Kind != token.INT || (l.Value != "0" && l.Value != "1") {
+			return 0, false
+		}
+		v := 0
+		if l.Value == "1" {
+			v = 1
+		}
+		if neg {
+			v = -v
+		}
+		return v, true
+	}
+	var rewrite func(e ast.Expr) ast.Expr
+	rewrite = func(e ast.Expr) ast.Expr {
+		switch x := e.(type) {
+		case *ast.ParenExpr:
+			x.X = rewrite(x.X)
+		case *ast.UnaryExpr:
+			x.X = rewrite(x.X)
+		case *ast.BinaryExpr:
+			if call, ok := isStringsCall(x.X, "Index"); ok {
+				if k, ok := intLit(x.Y); ok {
+					contains := &ast.CallExpr{Fun: &ast.SelectorExpr{X: ast.NewIdent("strings"), Sel: ast.NewIdent("Contains")}, Args: call.Args}
+					switch {
+					case (x.Op == token.NEQ && k == -1) || (x.Op == token.GTR && k == -1) || (x.Op == token.GEQ && k == 0):
+						nSites++
+						return contains
+					case (x.Op == token.EQL && k == -1) || (x.Op == token.LSS && k == 0):
+						nSites++
+						return &ast.UnaryExpr{Op: token.NOT, X: contains}
+					}
+				}
+			}
+			x.X, x.Y = rewrite(x.X), rewrite(x.Y)
+		case *ast.CallExpr:
+			if call, ok := isStringsCall(x, "Contains"); ok {
+				nSites++
+				return &ast.ParenExpr{X: &ast.BinaryExpr{X: &ast.CallExpr{Fun: &ast.SelectorExpr{X: ast.NewIdent("strings"), Sel: ast.NewIdent("Index")}, Args: call.Args}, Op: token.GEQ, Y: &ast.BasicLit{Kind: token.INT, Value: "0"}}}
+			}
+		}
+		return e
+	}
+	ast.Inspect(fd.Body, func(n ast.Node) bool {
+		switch x := n.(type) {
+		case *ast.IfStmt:
+			x.Cond = rewrite(x.Cond)
+		case *ast.ForStmt:
+			if x.Cond != nil {
+				x.Cond = rewrite(x.Cond)
+			}
+		case *ast.ReturnStmt:
+			for i := range x.Results {
+				x.Results[i] = rewrite(x.Results[i])
+			}
+		case *ast.AssignStmt:
+			for i := range x.Rhs {
+				x.Rhs[i] = rewrite(x.Rhs[i])
+			}
+		}
+		return true
 	})
 }
